@@ -203,3 +203,377 @@ Proof.
     repeat split; auto; try congruence.
 Qed.
 End H.
+
+(** ** guaranteed tickets *)
+Ltac break_in E :=
+  repeat (match type of E with
+          | context [match ?x with _ => _ end] => destruct x eqn:?
+          | context [if ?x then _ else _] => destruct x eqn:?
+          end; try discriminate E).
+
+Lemma add_one_v1_tf minc s tw tg x s' tw' tg' :
+  add_one_v1 minc (s, tw, tg) x = Ok (s', tw', tg') -> tf s' = tf s.
+Proof.
+  destruct x as [[[buyer staking] energy] mig]. unfold add_one_v1. intros E.
+  apply bind_ok in E. destruct E as (u1 & _ & E).
+  apply bind_ok in E. destruct E as (u2 & _ & E).
+  apply bind_ok in E. destruct E as (s1 & Hc & E). apply try_create_tickets_tf in Hc.
+  apply bind_ok in E. destruct E as ([[[s2 tw2] tg2] us2] & H1 & E).
+  apply bind_ok in E. destruct E as ([[[s3 tw3] tg3] us3] & H2 & E).
+  inversion E; subst.
+  assert (tf s2 = tf s1) by (break_in H1; mon_inv; tf_refl).
+  assert (tf s3 = tf s2) by (break_in H2; mon_inv; tf_refl).
+  transitivity (tf s3); [tf_refl|congruence].
+Qed.
+
+Lemma add_loop_v1_tf minc : forall l s tw tg s' tw' tg',
+  add_loop_v1 minc (s, tw, tg) l = Ok (s', tw', tg') -> tf s' = tf s.
+Proof.
+  induction l as [|x l IH]; intros s tw tg s' tw' tg' E; cbn in E; [inversion E; reflexivity|].
+  apply bind_ok in E. destruct E as ([[s1 tw1] tg1] & H1 & E).
+  apply add_one_v1_tf in H1. apply IH in E. congruence.
+Qed.
+
+Lemma add_tickets_v1_tf e w l w' : add_tickets_v1 e w l = Ok w' -> tf (st w') = tf (st w).
+Proof.
+  unfold add_tickets_v1. intros E.
+  apply bind_ok in E. destruct E as (u1 & _ & E).
+  apply bind_ok in E. destruct E as ([[s1 tw1] tg1] & H1 & E). inversion E; subst.
+  apply add_loop_v1_tf in H1. rewrite st_set_st. transitivity (tf s1); [tf_refl|assumption].
+Qed.
+
+Lemma add_one_v2_tf acc x acc' :
+  add_one_v2 acc x = Ok acc' -> tf (fst (fst (fst (fst (fst acc'))))) = tf (fst (fst (fst (fst (fst acc))))).
+Proof.
+  destruct acc as [[[[[s tw] tg] uc] ta] ga]. destruct x as [[buyer allowance] infos].
+  unfold add_one_v2. intros E. destruct (allowance =? 0); [inversion E; reflexivity|].
+  apply bind_ok in E. destruct E as (u1 & _ & E).
+  apply bind_ok in E. destruct E as (u2 & _ & E).
+  apply bind_ok in E. destruct E as (u3 & _ & E).
+  apply bind_ok in E. destruct E as (s1 & Hc & E). apply try_create_tickets_tf in Hc.
+  apply bind_ok in E. destruct E as (u4 & _ & E).
+  destruct (0 <? infos_sum infos).
+  - apply bind_ok in E. destruct E as (u5 & _ & E). inversion E; subst. cbn [fst].
+    transitivity (tf s1); [tf_refl|assumption].
+  - inversion E; subst. cbn [fst]. transitivity (tf s1); [tf_refl|assumption].
+Qed.
+
+Lemma add_loop_v2_tf : forall l acc acc',
+  add_loop_v2 acc l = Ok acc' -> tf (fst (fst (fst (fst (fst acc'))))) = tf (fst (fst (fst (fst (fst acc))))).
+Proof.
+  induction l as [|x l IH]; intros acc acc' E; cbn in E; [inversion E; reflexivity|].
+  apply bind_ok in E. destruct E as (u & _ & E).
+  apply bind_ok in E. destruct E as (acc1 & H1 & E).
+  apply add_one_v2_tf in H1. apply IH in E. congruence.
+Qed.
+
+Lemma add_tickets_v2_tf e w l w' : add_tickets_v2 e w l = Ok w' -> tf (st w') = tf (st w).
+Proof.
+  unfold add_tickets_v2. intros E.
+  apply bind_ok in E. destruct E as (u1 & _ & E).
+  apply bind_ok in E. destruct E as ([[[[[s1 tw] tg] uc] ta] ga] & H1 & E). inversion E; subst.
+  apply add_loop_v2_tf in H1. cbn [fst] in H1. rewrite st_emit, st_set_st.
+  transitivity (tf s1); [tf_refl|assumption].
+Qed.
+
+Lemma clear_gt_loop_v1_tf : forall l s a b s' a' b', clear_gt_loop_v1 (s, a, b) l = Ok (s', a', b') -> tf s' = tf s.
+Proof.
+  induction l as [|u l IH]; intros s a b s' a' b' E; cbn in E; [inversion E; reflexivity|].
+  destruct (mem u (gt_users s)); [|eapply IH; eauto].
+  apply bind_ok in E. destruct E as (x1 & _ & E). apply bind_ok in E. destruct E as (x2 & _ & E).
+  apply IH in E. rewrite E. tf_refl.
+Qed.
+Lemma clear_gt_after_blacklist_v1_tf w l w' : clear_gt_after_blacklist_v1 w l = Ok w' -> tf (st w') = tf (st w).
+Proof.
+  unfold clear_gt_after_blacklist_v1. intros E.
+  apply bind_ok in E. destruct E as ([[s1 rm] tg] & H1 & E). inversion E; subst.
+  apply clear_gt_loop_v1_tf in H1. rewrite st_set_st. destruct (0 <? rm); (transitivity (tf s1); [tf_refl|assumption]).
+Qed.
+Lemma clear_gt_loop_v2_tf : forall l s a b s' a' b', clear_gt_loop_v2 (s, a, b) l = Ok (s', a', b') -> tf s' = tf s.
+Proof.
+  induction l as [|u l IH]; intros s a b s' a' b' E; cbn in E; [inversion E; reflexivity|].
+  apply bind_ok in E. destruct E as (x1 & _ & E). apply IH in E. rewrite E. tf_refl.
+Qed.
+Lemma clear_gt_after_blacklist_v2_tf w l w' : clear_gt_after_blacklist_v2 w l = Ok w' -> tf (st w') = tf (st w).
+Proof.
+  unfold clear_gt_after_blacklist_v2. intros E.
+  apply bind_ok in E. destruct E as ([[s1 rm] tg] & H1 & E). inversion E; subst.
+  apply clear_gt_loop_v2_tf in H1. rewrite st_set_st. transitivity (tf s1); [tf_refl|assumption].
+Qed.
+Lemma unbl_gt_loop_v1_tf : forall l s a b s' a' b', unbl_gt_loop_v1 (s, a, b) l = Ok (s', a', b') -> tf s' = tf s.
+Proof.
+  induction l as [|u l IH]; intros s a b s' a' b' E; cbn in E; [inversion E; reflexivity|].
+  match type of E with (if ?c then _ else _) = _ => destruct c end; [eapply IH; eauto|].
+  destruct (mem u (gt_users s)); [eapply IH; eauto|].
+  apply bind_ok in E. destruct E as (x0 & _ & E).
+  apply bind_ok in E. destruct E as (x1 & _ & E). apply bind_ok in E. destruct E as (x2 & _ & E).
+  apply IH in E. rewrite E. tf_refl.
+Qed.
+Lemma unblacklist_gt_v1_tf w l w' : unblacklist_gt_v1 w l = Ok w' -> tf (st w') = tf (st w).
+Proof.
+  unfold unblacklist_gt_v1. intros E.
+  apply bind_ok in E. destruct E as ([[s1 rm] tg] & H1 & E). inversion E; subst.
+  apply unbl_gt_loop_v1_tf in H1. rewrite st_set_st. transitivity (tf s1); [tf_refl|assumption].
+Qed.
+Lemma unbl_gt_loop_v2_tf : forall l s a b s' a' b', unbl_gt_loop_v2 (s, a, b) l = Ok (s', a', b') -> tf s' = tf s.
+Proof.
+  induction l as [|u l IH]; intros s a b s' a' b' E; cbn in E; [inversion E; reflexivity|].
+  destruct (range s u); [|eapply IH; eauto].
+  apply bind_ok in E. destruct E as ([[s1 nw1] tg1] & H1 & E).
+  apply IH in E. rewrite E.
+  destruct (0 <? _); mon_inv; tf_refl.
+Qed.
+Lemma unblacklist_gt_v2_tf w l w' : unblacklist_gt_v2 w l = Ok w' -> tf (st w') = tf (st w).
+Proof.
+  unfold unblacklist_gt_v2. intros E.
+  apply bind_ok in E. destruct E as ([[s1 rm] tg] & H1 & E). inversion E; subst.
+  apply unbl_gt_loop_v2_tf in H1. rewrite st_set_st. transitivity (tf s1); [tf_refl|assumption].
+Qed.
+
+Lemma topup_v2_tf : forall ids s r a s' r' a', topup_v2 ids s r a = (s', r', a') -> tf s' = tf s.
+Proof.
+  induction ids as [|t ids IH]; intros s r a s' r' a' E; cbn in E; [inversion E; reflexivity|].
+  destruct (r =? 0); [inversion E; reflexivity|]. destruct (status s t); [eapply IH; eauto|].
+  apply IH in E. rewrite E. tf_refl.
+Qed.
+
+Lemma gt_user_step_tf (v2 : bool) s o u (s' : state) (o' : gtop) :
+  (if v2 then gt_user_step_v2 s o u else gt_user_step_v1 s o u) = (s', o') -> tf s' = tf s.
+Proof.
+  destruct v2.
+  - unfold gt_user_step_v2. intros E. break_in E; inversion E; subst; try reflexivity.
+    eapply topup_v2_tf; eauto.
+  - unfold gt_user_step_v1. intros E. break_in E; inversion E; subst; try reflexivity;
+      eapply topup_v2_tf; eauto.
+Qed.
+
+Lemma select_gt_body_tf v2 s o n s' o' n' c :
+  select_gt_body v2 (s, o, n) = Ok (s', o', n', c) -> tf s' = tf s.
+Proof.
+  unfold select_gt_body. destruct (n =? 0); [intros E; inversion E; reflexivity|].
+  destruct (gt_users s) as [|u l]; [discriminate|].
+  destruct (if v2 then _ else _) as [s2 o2] eqn:Es. intros E; inversion E; subst.
+  apply gt_user_step_tf in Es. rewrite Es. tf_refl.
+Qed.
+
+Section H2.
+Variable H : list N -> list N.
+
+Lemma try_select_tf v2 w r cur last tr r' w' :
+  try_select_winning_ticket H v2 w r cur last = (tr, r', w') -> tf (st w') = tf (st w).
+Proof.
+  unfold try_select_winning_ticket, next_usize_in_range, next_usize. destruct w as [s ? ? ? ? ?]. cbn.
+  intros E. break_in E; inversion E; subst; tf_refl.
+Qed.
+
+Lemma leftover_body_tf v2 nrw last w o w' o' c :
+  leftover_body H v2 nrw last (w, o) = Ok (w', o', c) -> tf (st w') = tf (st w).
+Proof.
+  unfold leftover_body. intros E.
+  destruct (g_leftover _ =? 0); [inversion E; reflexivity|].
+  destruct (try_select_winning_ticket _ _ _ _ _ _) as [[tr r'] w1] eqn:Et.
+  apply try_select_tf in Et. destruct tr; inversion E; subst; assumption.
+Qed.
+
+Lemma gt_distribution_tf v2 b w o w' o' d b' :
+  gt_distribution H v2 b w o = Ok (w', o', d, b') -> tf (st w') = tf (st w).
+Proof.
+  unfold gt_distribution. intros E.
+  apply bind_ok in E. destruct E as ([[[[s1 o1] n1] d1] b1] & H1 & E).
+  assert (Hs1 : tf s1 = tf (st w)).
+  { change (tf (fst (fst (s1, o1, n1))) = tf (st w)).
+    eapply (run_invariant (select_gt_body v2) (fun x => tf (fst (fst x)) = tf (st w))); [| |exact H1].
+    - intros [[sa oa] na] [[sb ob] nb] c Hf Eb. cbn in *. apply select_gt_body_tf in Eb. congruence.
+    - reflexivity. }
+  destruct d1; cbn [negb] in E.
+  - apply bind_ok in E. destruct E as ([[[w2 o2] d2] b2] & H2 & E). inversion E; subst.
+    change (tf (st (fst (w', o'))) = tf (st w)).
+    eapply (run_invariant (leftover_body H v2 (nr_winning s1) (last_ticket_id s1)) (fun x => tf (st (fst x)) = tf (st w))); [| |exact H2].
+    + intros [wa oa] [wb ob] c Hf Eb. cbn in *. apply leftover_body_tf in Eb. congruence.
+    + cbn. exact Hs1.
+  - inversion E; subst. rewrite ?st_set_st. exact Hs1.
+Qed.
+
+Lemma load_gt_op_st w o w' : load_gt_op w = Ok (o, w') -> st w' = st w.
+Proof.
+  unfold load_gt_op. destruct (op (st w)) as [| | |d]; try discriminate.
+  - unfold rng_default. destruct (seeds w); intros E; inversion E; reflexivity.
+  - destruct d; try discriminate. intros E; inversion E; reflexivity.
+Qed.
+
+Lemma distribute_tf v2 e b w w' x :
+  distribute_guaranteed_tickets H v2 e b w = Ok (w', x) ->
+  terms_of (st w') = terms_of (st w) /\ fl_filtered (st w') = fl_filtered (st w) /\
+  fl_selected (st w') = fl_selected (st w) /\
+  (x = 0 -> fl_additional (st w') = true) /\ (x <> 0 -> fl_additional (st w') = fl_additional (st w)).
+Proof.
+  unfold distribute_guaranteed_tickets. intros E.
+  apply bind_ok in E. destruct E as (u1 & _ & E).
+  apply bind_ok in E. destruct E as (u2 & _ & E).
+  apply bind_ok in E. destruct E as (u3 & _ & E).
+  apply bind_ok in E. destruct E as (u4 & _ & E).
+  apply bind_ok in E. destruct E as (u5 & _ & E).
+  apply bind_ok in E. destruct E as ([o0 wl] & Hl & E). apply load_gt_op_st in Hl.
+  apply bind_ok in E. destruct E as ([[[w1 o1] d1] b1] & Hd & E).
+  apply gt_distribution_tf in Hd. rewrite st_set_st, Hl in Hd.
+  assert (Hs1 : tf (st w1) = tf (st w)) by (rewrite Hd; tf_refl).
+  unfold tf in Hs1. inversion Hs1 as [[Ht Hfl]]. unfold flags_of in Hfl. inversion Hfl.
+  destruct d1; inversion E; subst.
+  - destruct v2; rewrite ?st_emit; unfold finish_gt; rewrite !st_set_st; unfold terms_of in *; cbn;
+      inversion Ht; repeat split; auto; try congruence.
+  - rewrite st_set_st. unfold terms_of in *. cbn. inversion Ht. repeat split; auto; try congruence.
+Qed.
+End H2.
+
+(** ** vesting, NFT *)
+Lemma compute_launchpad_results_tf e w w' : compute_launchpad_results e w = Ok w' -> tf (st w') = tf (st w).
+Proof.
+  unfold compute_launchpad_results. intros E.
+  apply bind_ok in E. destruct E as (u & _ & E).
+  apply bind_ok in E. destruct E as ([w1 wins] & Hs & E). apply settle_tf in Hs.
+  destruct (0 <? wins); inversion E; subst; rewrite ?st_set_st; [|assumption].
+  transitivity (tf (st w1)); [tf_refl|assumption].
+Qed.
+
+Lemma claim_vested_tf v2 e w w' : claim_vested v2 e w = Ok w' -> tf (st w') = tf (st w).
+Proof.
+  unfold claim_vested. intros E.
+  apply bind_ok in E. destruct E as (u & _ & E).
+  apply bind_ok in E. destruct E as (w1 & H1 & E).
+  assert (Hw1 : tf (st w1) = tf (st w)).
+  { destruct (claimed (st w) (caller e)); [inversion H1; reflexivity | now apply compute_launchpad_results_tf in H1]. }
+  apply bind_ok in E. destruct E as (amt & _ & E).
+  destruct (0 <? amt); [|inversion E; subst; assumption].
+  apply bind_ok in E. destruct E as (w2 & Ht & E). apply transfer_tf in Ht.
+  inversion E; subst. destruct v2; rewrite ?st_emit, st_set_st, Ht; (transitivity (tf (st w1)); [tf_refl|assumption]).
+Qed.
+
+Lemma claim_ticket_payment_gt_tf e w w' : claim_ticket_payment_gt e w = Ok w' -> tf (st w') = tf (st w).
+Proof.
+  unfold claim_ticket_payment_gt. intros E.
+  apply bind_ok in E. destruct E as (u & _ & E).
+  apply bind_ok in E. destruct E as (w1 & H1 & E).
+  assert (Hw1 : tf (st w1) = tf (st w)).
+  { destruct (0 <? claimable_payment (st w)); [|inversion H1; reflexivity].
+    apply transfer_tf in H1. rewrite H1, st_set_st. tf_refl. }
+  cbn zeta in E. destruct (total_deposited (st w1) =? 0); [inversion E; subst; rewrite st_set_st; rewrite <- Hw1; tf_refl|].
+  destruct (_ <=? _); [inversion E; subst; rewrite st_set_st; rewrite <- Hw1; tf_refl|].
+  apply transfer_tf in E. rewrite E, st_set_st, <- Hw1. tf_refl.
+Qed.
+
+Lemma confirm_nft_tf e w w' : confirm_nft e w = Ok w' -> tf (st w') = tf (st w).
+Proof.
+  unfold confirm_nft. intros E.
+  apply bind_ok in E. destruct E as (u1 & _ & E). apply bind_ok in E. destruct E as (u2 & _ & E).
+  apply bind_ok in E. destruct E as (u3 & _ & E). apply bind_ok in E. destruct E as (u4 & _ & E).
+  apply bind_ok in E. destruct E as ([[t n] a] & _ & E).
+  apply bind_ok in E. destruct E as (u5 & _ & E). inversion E; subst. rewrite st_set_st. tf_refl.
+Qed.
+
+Lemma refund_nft_loop_tf : forall l w w', refund_nft_loop w l = Ok w' -> tf (st w') = tf (st w).
+Proof.
+  induction l as [|u l IH]; intros w w' E; cbn in E; [inversion E; reflexivity|].
+  destruct (mem u (nft_payers (st w))); [|eapply IH; eauto].
+  apply bind_ok in E. destruct E as (w1 & Ht & E). apply transfer_tf in Ht. apply IH in E.
+  rewrite E, Ht, st_set_st. tf_refl.
+Qed.
+
+Lemma claim_nft_payment_tf e w w' : claim_nft_payment e w = Ok w' -> tf (st w') = tf (st w).
+Proof.
+  unfold claim_nft_payment. intros E.
+  apply bind_ok in E. destruct E as (u1 & _ & E).
+  destruct (0 <? claimable_nft (st w)); [|inversion E; reflexivity].
+  apply bind_ok in E. destruct E as (w1 & Ht & E). apply transfer_tf in Ht.
+  inversion E; subst. rewrite st_set_st, Ht. tf_refl.
+Qed.
+
+Lemma claim_nft_tf e w w' : claim_nft e w = Ok w' -> tf (st w') = tf (st w).
+Proof.
+  unfold claim_nft. intros E.
+  destruct (mem (caller e) (nft_winners (st w))).
+  - apply bind_ok in E. destruct E as (u & _ & E). cbn in E. inversion E; subst. tf_refl.
+  - destruct (mem (caller e) (nft_payers (st w))).
+    + apply bind_ok in E. destruct E as (u & _ & E). cbn in E. apply transfer_tf in E. rewrite E. tf_refl.
+    + apply bind_ok in E. destruct E as (u & _ & E). cbn in E. inversion E; subst. tf_refl.
+Qed.
+
+Section H3.
+Variable H : list N -> list N.
+
+Lemma nft_body_tf total w r ul sel w' r' ul' sel' c :
+  nft_body H total (w, r, ul, sel) = Ok (w', r', ul', sel', c) -> tf (st w') = tf (st w).
+Proof.
+  unfold nft_body, next_usize_in_range, next_usize. destruct w as [s ? ? ? ? ?]. cbn.
+  intros E. break_in E; inversion E; subst; tf_refl.
+Qed.
+
+Lemma select_nft_winners_tf b w r w' r' d b' :
+  select_nft_winners H b w r = Ok (w', r', d, b') -> tf (st w') = tf (st w).
+Proof.
+  unfold select_nft_winners. intros E.
+  apply bind_ok in E. destruct E as ([[[[[w1 r1] u1] s1] d1] b1] & Hr & E). inversion E; subst.
+  change (tf (st (fst (fst (fst (w', r', u1, s1))))) = tf (st w)).
+  eapply (run_invariant (nft_body H (total_nfts (st w))) (fun x => tf (st (fst (fst (fst x)))) = tf (st w))); [| |exact Hr].
+  - intros [[[wa ra] ua] sa] [[[wb rb] ub] sb] c Hf Eb. cbn in *. apply nft_body_tf in Eb. congruence.
+  - reflexivity.
+Qed.
+
+Lemma select_nft_endpoint_tf e b w w' x :
+  select_nft_winners_endpoint H e b w = Ok (w', x) ->
+  terms_of (st w') = terms_of (st w) /\ fl_filtered (st w') = fl_filtered (st w) /\
+  fl_selected (st w') = fl_selected (st w) /\
+  (x = 0 -> fl_additional (st w') = true) /\ (x <> 0 -> fl_additional (st w') = fl_additional (st w)).
+Proof.
+  unfold select_nft_winners_endpoint. intros E.
+  apply bind_ok in E. destruct E as (u1 & _ & E).
+  apply bind_ok in E. destruct E as (u2 & _ & E).
+  apply bind_ok in E. destruct E as (u3 & _ & E).
+  apply bind_ok in E. destruct E as ([r0 wl] & Hl & E).
+  assert (Hwl : st wl = st w).
+  { destruct (op (st w)) as [| | |d]; try discriminate.
+    - unfold rng_default in Hl. destruct (seeds w); inversion Hl; reflexivity.
+    - destruct d; try discriminate. inversion Hl; reflexivity. }
+  apply bind_ok in E. destruct E as ([[[w1 r1] d1] b1] & Hs & E).
+  apply select_nft_winners_tf in Hs. rewrite st_set_st, Hwl in Hs.
+  assert (Hs1 : tf (st w1) = tf (st w)) by (rewrite Hs; tf_refl).
+  unfold tf in Hs1. inversion Hs1 as [[Ht Hfl]]. unfold flags_of in Hfl. inversion Hfl.
+  destruct d1; inversion E; subst; unfold set_claimable_nft; rewrite ?st_set_st; unfold terms_of in *; cbn;
+    inversion Ht; repeat split; auto; try congruence.
+Qed.
+
+Lemma secondary_tf e b w w' x :
+  secondary_selection_step H e b w = Ok (w', x) ->
+  terms_of (st w') = terms_of (st w) /\ fl_filtered (st w') = fl_filtered (st w) /\
+  fl_selected (st w') = fl_selected (st w) /\
+  (x = 0 -> fl_additional (st w') = true) /\ (x <> 0 -> fl_additional (st w') = fl_additional (st w)).
+Proof.
+  unfold secondary_selection_step. intros E.
+  apply bind_ok in E. destruct E as (u1 & _ & E).
+  apply bind_ok in E. destruct E as (u2 & _ & E).
+  apply bind_ok in E. destruct E as (u3 & _ & E).
+  apply bind_ok in E. destruct E as ([cur wl] & Hl & E).
+  assert (Hwl : st wl = st w).
+  { destruct (op (st w)) as [| | |d]; try discriminate.
+    - unfold rng_default in Hl. destruct (seeds w); inversion Hl; reflexivity.
+    - destruct d; try discriminate; inversion Hl; reflexivity. }
+  apply bind_ok in E. destruct E as ([[w1 orng] b1] & Hph & E).
+  assert (Hw1 : tf (st w1) = tf (st w)).
+  { destruct cur; try discriminate.
+    - apply bind_ok in Hph. destruct Hph as ([[[wa oa] da] ba] & Hd & Hph).
+      apply gt_distribution_tf in Hd. rewrite st_set_st, Hwl in Hd.
+      destruct da.
+      + unfold rng_default, finish_gt in Hph. destruct (seeds _); inversion Hph; subst; cbn;
+          rewrite ?st_set_st; (transitivity (tf (st wa)); [tf_refl | rewrite Hd; tf_refl]).
+      + inversion Hph; subst. rewrite st_set_st. transitivity (tf (st wa)); [tf_refl | rewrite Hd; tf_refl].
+    - inversion Hph; subst. rewrite st_set_st, Hwl. tf_refl. }
+  unfold tf in Hw1. inversion Hw1 as [[Ht Hfl]]. unfold flags_of in Hfl. inversion Hfl.
+  destruct orng as [r|].
+  - apply bind_ok in E. destruct E as ([[[w2 r2] d2] b2] & Hs & E).
+    apply select_nft_winners_tf in Hs.
+    assert (Hs2 : tf (st w2) = tf (st w)) by (rewrite Hs; unfold tf; congruence).
+    unfold tf in Hs2. inversion Hs2 as [[Ht2 Hfl2]]. unfold flags_of in Hfl2. inversion Hfl2.
+    destruct d2; inversion E; subst; unfold set_claimable_nft; rewrite ?st_set_st; unfold terms_of in *; cbn;
+      inversion Ht2; repeat split; auto; try congruence.
+  - inversion E; subst. repeat split; auto; try congruence.
+Qed.
+End H3.
